@@ -12,8 +12,8 @@ namespace K
 
 /-! ### LFO: waveforms, range, phase -/
 
-/-- **waveform range**: for a non-negative phase every one of the four waveforms lies in [-1, 1]
-    (pulse: whatever its width). -/
+/-- **waveform range**: for a non-negative phase — the only phases `Lfo::update` evaluates a waveform at, see
+    `C17_lfo_phase_unit` — every one of the four waveforms lies in [-1, 1] (pulse: whatever its width). -/
 theorem C17_waveform_range (w : Waveform ℝ) (p : ℝ) (hp : 0 ≤ p) : -1 ≤ w.value p ∧ w.value p ≤ 1 :=
   Waveform.value_range w p hp
 
@@ -51,84 +51,77 @@ theorem C17_waveform_formulas (p : ℝ) (h0 : 0 ≤ p) (h1 : p < 1) :
 
 /-- **the value formula**: after every update the LFO's value is
     `offset + amplitude · waveform(phase)` of the *updated* offset, amplitude and phase, and the phase
-    advanced by `dt · frequency` (updated frequency) modulo 1; the configured starting phase (radians)
-    is the phase `starting_phase / 2π` in cycles. -/
+    advanced by `dt · frequency` (updated frequency) modulo 1 — the Euclidean remainder `x − ⌊x⌋ ∈ [0, 1)`
+    (`rem_euclid(1.0)`), for every sign of the old phase and of the advance; the configured starting phase
+    (radians) is the phase `starting_phase / 2π` in cycles. -/
 theorem C17_lfo_value_formula (l : Lfo ℝ) (dt : ℝ) (info : Info ℝ) :
     (l.update dt info).value
         = (l.update dt info).offset.raw
           + (l.update dt info).amplitude.raw * l.waveform.value (l.update dt info).phase
-      ∧ (l.update dt info).phase = rem1 (l.phase + dt * (l.update dt info).frequency.raw)
+      ∧ (l.update dt info).phase = Int.fract (l.phase + dt * (l.update dt info).frequency.raw)
       ∧ ∀ b : LfoBuilder ℝ, (Lfo.new b).phase = b.startingPhase / (2 * Real.pi)
           ∧ (Lfo.new b).waveform = b.waveform := by
   refine ⟨Lfo.update_value l dt info, Lfo.update_phase l dt info, fun b => ⟨?_, rfl⟩⟩
   simp [Lfo.new, tau_real]
 
-/- FULL STATEMENT (false of the code, see `C17_lfo_range_fails_negative_phase`):
-     for every LFO state `l` (any phase, in particular the negative phases that a negative
-     `starting_phase` / `set_phase` in radians produces), `dt ≥ 0`, frequency ≥ 0:
-       |(l.update dt info).value − offset| ≤ |amplitude|.
-   Proved: the same with the extra hypothesis `0 ≤ l.phase`. -/
-
-/-- **LFO range** (partial: non-negative phase): while the phase is non-negative (non-negative starting phase, frequency and steps)
-    the value stays within offset ± |amplitude| — all four waveforms, any tweens or links on the three
-    settings (the bound is in terms of their current values). -/
-theorem C17_lfo_range_partial (l : Lfo ℝ) (dt : ℝ) (info : Info ℝ) (hp : 0 ≤ l.phase) (hdt : 0 ≤ dt)
-    (hf : 0 ≤ (l.update dt info).frequency.raw) :
+/-- **LFO range** (full strength: every phase, every frequency, every step): after an update the value stays
+    within offset ± |amplitude| — all four waveforms, any state the LFO was in (in particular the negative
+    phases that a negative `starting_phase` / `set_phase` in radians produces), any sign of the frequency and
+    of `dt`, any tweens or links on the three settings (the bound is in terms of their current values).
+    (Before kira's fix "LFO with a negative phase left offset ± |amplitude|" this needed phase ≥ 0, f ≥ 0.) -/
+theorem C17_lfo_range (l : Lfo ℝ) (dt : ℝ) (info : Info ℝ) :
     |(l.update dt info).value - (l.update dt info).offset.raw| ≤ |(l.update dt info).amplitude.raw| := by
-  have hph : 0 ≤ (l.update dt info).phase := by
-    rw [Lfo.update_phase_nonneg l dt info hp hdt hf]; exact Int.fract_nonneg _
-  obtain ⟨a, b⟩ := Waveform.value_range (l.update dt info).waveform _ hph
+  obtain ⟨a, b⟩ := Waveform.value_range (l.update dt info).waveform _ (Lfo.update_phase_unit l dt info).1
   rw [Lfo.update_value, add_sub_cancel_left, abs_mul]
   have : |(l.update dt info).waveform.value (l.update dt info).phase| ≤ 1 := abs_le.mpr ⟨a, b⟩
   calc |(l.update dt info).amplitude.raw| * |(l.update dt info).waveform.value (l.update dt info).phase|
       ≤ |(l.update dt info).amplitude.raw| * 1 := mul_le_mul_of_nonneg_left this (abs_nonneg _)
     _ = |(l.update dt info).amplitude.raw| := mul_one _
 
-/-- … for a whole run of updates (any partition of time): the bound holds after the last update. -/
-theorem C17_lfo_range_run_partial (info : Info ℝ) : ∀ (dts : List ℝ) (l : Lfo ℝ), dts ≠ [] → 0 ≤ l.phase →
-    Lfo.FreqNonneg l info dts →
+/-- … for a whole run of updates (any partition of time, any starting state): the bound holds after the
+    last update. -/
+theorem C17_lfo_range_run (info : Info ℝ) : ∀ (dts : List ℝ) (l : Lfo ℝ), dts ≠ [] →
     |(l.run info dts).value - (l.run info dts).offset.raw| ≤ |(l.run info dts).amplitude.raw| := by
   intro dts
   induction dts with
   | nil => intro l h; exact absurd rfl h
   | cons dt rest ih =>
-    intro l _ hp hf
-    obtain ⟨hdt, hf1, hrest⟩ := hf
+    intro l _
     cases rest with
-    | nil => exact C17_lfo_range_partial l dt info hp hdt hf1
-    | cons d2 r2 =>
-      have hph : 0 ≤ (l.update dt info).phase := by
-        rw [Lfo.update_phase_nonneg l dt info hp hdt hf1]; exact Int.fract_nonneg _
-      exact ih (l.update dt info) (by simp) hph hrest
+    | nil => exact C17_lfo_range l dt info
+    | cons d2 r2 => exact ih (l.update dt info) (by simp)
 
-/-- **the full range claim is false of the code** (all phases): a negative phase stays negative under
-    `% 1.0` and `fract` of a negative number is negative, so saw (phase < -1/2) and triangle
-    (phase < -3/4) leave [-1, 1].  Witness: `LfoBuilder { waveform: Saw, frequency: 1, amplitude: 1,
-    offset: 0, starting_phase: -0.6 · 2π }` updated with `dt = 0` has value -1.2 < offset - |amplitude|. -/
-theorem C17_lfo_range_fails_negative_phase :
-    ∃ (b : LfoBuilder ℝ) (dt : ℝ) (info : Info ℝ), 0 ≤ dt ∧ b.frequency = .fixed 1 ∧
-      ((Lfo.new b).update dt info).value
-        < ((Lfo.new b).update dt info).offset.raw - |((Lfo.new b).update dt info).amplitude.raw| := by
-  refine ⟨⟨.saw, .fixed 1, .fixed 1, .fixed 0, -(3 / 5) * tau⟩, 0, Info.empty, le_refl _, rfl, ?_⟩
-  have hc1 : ⌈(-(3 / 5) : ℝ)⌉ = 0 := Int.ceil_eq_iff.mpr ⟨by norm_num, by norm_num⟩
-  have hc2 : ⌈(-(3 / 5) + 1 / 2 : ℝ)⌉ = 0 := Int.ceil_eq_iff.mpr ⟨by norm_num, by norm_num⟩
+/-- **the phase is always in [0, 1) after an update** — the invariant kira's fix restores. -/
+theorem C17_lfo_phase_unit (l : Lfo ℝ) (dt : ℝ) (info : Info ℝ) :
+    0 ≤ (l.update dt info).phase ∧ (l.update dt info).phase < 1 :=
+  Lfo.update_phase_unit l dt info
+
+/-- **the old failing input is in range now** (regression statement replacing the former negation witness
+    `C17_lfo_range_fails_negative_phase`): `LfoBuilder { waveform: Saw, frequency: 1, amplitude: 1, offset: 0,
+    starting_phase: -0.6 · 2π }` updated with `dt = 0` has phase 0.4 and value 0.8 (the old code: phase -0.6,
+    value -1.2). -/
+theorem C17_lfo_negative_phase_wraps :
+    ((Lfo.new (⟨.saw, .fixed 1, .fixed 1, .fixed 0, -(3 / 5) * tau⟩ : LfoBuilder ℝ)).update 0 Info.empty).phase = 2 / 5
+      ∧ ((Lfo.new (⟨.saw, .fixed 1, .fixed 1, .fixed 0, -(3 / 5) * tau⟩ : LfoBuilder ℝ)).update 0 Info.empty).value = 4 / 5 := by
   have htau : (-(3 / 5) * tau / tau : ℝ) = -(3 / 5) := by
     have := tau_pos; field_simp
   have hphase : ((Lfo.new (⟨.saw, .fixed 1, .fixed 1, .fixed 0, -(3 / 5) * tau⟩ : LfoBuilder ℝ)).update 0 Info.empty).phase
-      = -(3 / 5) := by
-    rw [Lfo.update_phase, rem1_real]
+      = 2 / 5 := by
+    rw [Lfo.update_phase]
     simp only [Lfo.new, zero_mul, add_zero, htau]
-    unfold fract
-    rw [trunc_neg _ (by norm_num), hc1]; norm_num
+    rw [Int.fract_eq_iff]
+    exact ⟨by norm_num, by norm_num, -1, by push_cast; norm_num⟩
+  refine ⟨hphase, ?_⟩
   rw [Lfo.update_value, hphase]
+  have hfl : Int.fract ((2 / 5 : ℝ) + 1 / 2) = 9 / 10 :=
+    Int.fract_eq_iff.mpr ⟨by norm_num, by norm_num, 0, by push_cast; norm_num⟩
   simp only [Lfo.update, Lfo.new, Parameter.new, Parameter.update, Value.isFixed, if_true, Waveform.value,
     Parameter.value, lit_half, lit_2, lit_1]
-  unfold fract
-  rw [trunc_neg _ (by norm_num), hc2]
+  rw [ClockTime.fract_nonneg_real _ (by norm_num), hfl]
   norm_num
 
-/-- **phase accumulation modulo one, unconditionally**: for every run (any signs of steps, frequencies and
-    starting phase) the phase differs from `φ₀ + Σ dtᵢ·fᵢ` by a whole number of cycles. -/
+/-- **phase accumulation modulo one**: for every run (any signs of steps, frequencies and starting phase) the
+    phase differs from `φ₀ + Σ dtᵢ·fᵢ` by a whole number of cycles (also for the empty run). -/
 theorem C17_lfo_phase_congruent (info : Info ℝ) : ∀ (dts : List ℝ) (l : Lfo ℝ),
     ∃ n : ℤ, (l.run info dts).phase = l.phase + Lfo.advance l info dts - n := by
   intro dts
@@ -137,35 +130,32 @@ theorem C17_lfo_phase_congruent (info : Info ℝ) : ∀ (dts : List ℝ) (l : Lf
   | cons dt rest ih =>
     intro l
     obtain ⟨n, hn⟩ := ih (l.update dt info)
-    have hstep : ∃ k : ℤ, (l.update dt info).phase = l.phase + dt * (l.update dt info).frequency.raw - k := by
-      rw [Lfo.update_phase, rem1_real]
-      unfold fract trunc
-      split
-      · exact ⟨⌈l.phase + dt * (l.update dt info).frequency.raw⌉, rfl⟩
-      · exact ⟨⌊l.phase + dt * (l.update dt info).frequency.raw⌋, rfl⟩
+    have hstep : ∃ k : ℤ, (l.update dt info).phase = l.phase + dt * (l.update dt info).frequency.raw - k :=
+      ⟨⌊l.phase + dt * (l.update dt info).frequency.raw⌋, Lfo.update_phase l dt info⟩
     obtain ⟨k, hk⟩ := hstep
     refine ⟨n + k, ?_⟩
     simp only [Lfo.run, Lfo.advance]
     rw [hn, hk]; push_cast; ring
 
-/- FULL STATEMENT (false of the code for a negative starting phase, same root cause as the range):
-     phase = fract(φ₀ + Σ dtᵢ·fᵢ) ∈ [0, 1) for every φ₀ and all fᵢ ≥ 0.  With φ₀ < 0 the code's phase stays
-     negative until the sum crosses zero (only the congruence above holds).  Proved: for φ₀ ≥ 0. -/
+/-- **phase accumulation, any partition of time** (full strength): after a non-empty run of updates
+    phase = fract(φ₀ + Σ dtᵢ·fᵢ) ∈ [0, 1), `fract x = x − ⌊x⌋` the Euclidean fractional part — for every
+    starting phase φ₀ (negative ones included), every sign of the frequencies `fᵢ` (the frequency parameter's
+    value in update `i`: fixed, tweened or linked) and of the steps; it depends only on the accumulated
+    advance, not on how time was cut into updates.
+    (Over ℝ.  In binary64 `rem_euclid(1.0)` returns exactly `1.0` for a remainder in [-2⁻⁵⁴, 0): that corner
+    is a rounding effect outside this statement; the twin mirrors it bit for bit and the waveforms at phase
+    `1.0` equal those at `0.0` up to rounding.) -/
+theorem C17_lfo_phase (info : Info ℝ) (l : Lfo ℝ) (dt : ℝ) (dts : List ℝ) :
+    (l.run info (dt :: dts)).phase = Int.fract (l.phase + Lfo.advance l info (dt :: dts))
+      ∧ 0 ≤ (l.run info (dt :: dts)).phase ∧ (l.run info (dt :: dts)).phase < 1 := by
+  have h := Lfo.run_phase info l dt dts
+  exact ⟨h, by rw [h]; exact Int.fract_nonneg _, by rw [h]; exact Int.fract_lt_one _⟩
 
-/-- **phase accumulation, any partition of time** (partial: non-negative phase): after a non-empty run of updates with non-negative
-    steps and frequencies, phase = fract(φ₀ + Σ dtᵢ·fᵢ) — it depends only on the accumulated advance,
-    not on how time was cut into updates (`fᵢ` = the frequency parameter's value in update `i`: fixed,
-    tweened or linked). -/
-theorem C17_lfo_phase_partial (info : Info ℝ) (l : Lfo ℝ) (dt : ℝ) (dts : List ℝ) (h0 : 0 ≤ l.phase)
-    (hf : Lfo.FreqNonneg l info (dt :: dts)) :
-    (l.run info (dt :: dts)).phase = Int.fract (l.phase + Lfo.advance l info (dt :: dts)) :=
-  Lfo.run_phase info l dt dts h0 hf
-
-/-- … with a fixed frequency `f ≥ 0`: phase = fract(φ₀ + f · T), `T` the total time. -/
-theorem C17_lfo_phase_fixed_frequency_partial (info : Info ℝ) (l : Lfo ℝ) (dt : ℝ) (dts : List ℝ) (h0 : 0 ≤ l.phase)
-    (hs : l.frequency.stagnant = true) (hf : 0 ≤ l.frequency.raw) (hnn : ∀ x ∈ dt :: dts, 0 ≤ x) :
+/-- … with a fixed frequency `f` of any sign: phase = fract(φ₀ + f · T), `T` the total time. -/
+theorem C17_lfo_phase_fixed_frequency (info : Info ℝ) (l : Lfo ℝ) (dt : ℝ) (dts : List ℝ)
+    (hs : l.frequency.stagnant = true) :
     (l.run info (dt :: dts)).phase = Int.fract (l.phase + l.frequency.raw * (dt :: dts).sum) := by
-  rw [C17_lfo_phase_partial info l dt dts h0 (Lfo.freqNonneg_fixed info _ l hs hf hnn), Lfo.advance_fixed info _ l hs]
+  rw [(C17_lfo_phase info l dt dts).1, Lfo.advance_fixed info _ l hs]
 
 /-! ### tweener -/
 
@@ -659,11 +649,10 @@ theorem C17_chunk_sizes (frames ibs : ℕ) (hibs : 0 < ibs) :
 
 /-! ### non-vacuity -/
 
-example : Lfo.FreqNonneg (Lfo.new (LfoBuilder.default : LfoBuilder ℝ)) Info.empty [1 / 4, 1 / 8] := by
-  refine Lfo.freqNonneg_fixed _ _ _ ?_ ?_ ?_
-  · simp [Lfo.new, LfoBuilder.default, Parameter.new, Value.isFixed]
-  · simp [Lfo.new, LfoBuilder.default, Parameter.new]
-  · intro x hx; simp at hx; rcases hx with rfl | rfl <;> norm_num
+/-- the hypothesis of `C17_lfo_phase_fixed_frequency` holds for a builder with a fixed frequency, also a
+    negative one (and a negative starting phase) -/
+example : (Lfo.new (⟨.saw, .fixed (-1), .fixed 1, .fixed 0, -1⟩ : LfoBuilder ℝ)).frequency.stagnant = true := by
+  simp [Lfo.new, Parameter.new, Value.isFixed]
 
 example : TwOpsOK [TwOp.set (1 : ℝ) ⟨.immediate, 5, .inPowi 2⟩, TwOp.update (1 / 2) Info.empty] := by
   refine ⟨?_, by norm_num, trivial⟩
